@@ -24,11 +24,11 @@ def run(rep: Report, prog: Program, tier: str) -> None:
     rep.trusted_base = ["sa/paths.py, sa/absint.py", "reference table sa/rules/breaker_table.py:reference"]
     rep.assumptions = ["recovery_timeout_s > 0 (validated in __init__)"]
     rep.not_decided = ["numeric `until recovery_timeout_s has elapsed` beyond the pinned >= operator", "thread interleavings (C17)"]
-    rep.rule("R7.1", "transition table of allow() and of the HALF_OPEN rows of record_*: == specification")
+    rep.rule("R7.1", "transition table of allow() and of the OPEN / HALF_OPEN rows of record_*: == specification (while OPEN nothing a late-finishing call reports can change the state: only allow() after the timeout leaves OPEN)")
     check_method(rep, "R7.1", prog, "allow")
     for m in ("record_success", "record_failure", "record_cancel"):
-        check_method(rep, "R7.1", prog, m, row_filter=lambda v: v["ST"] == "HALF_OPEN")
-    rep.floor("R7.1", 12 + 1 + 4 + 1)
+        check_method(rep, "R7.1", prog, m, row_filter=lambda v: v["ST"] in ("HALF_OPEN", "OPEN"))
+    rep.floor("R7.1", 12 + 2 * (1 + 4 + 1))
 
     rep.rule("R7.2", "the operation / retry component is invoked only when the call is admitted (or there is no breaker)")
     rep.rule("R7.3", "a rejected call makes no breaker record; call() leaves by CircuitOpenError, execute() returns ok=False with attempts=0")
